@@ -308,6 +308,8 @@ def swap_trim_coordinates(trim):
     if trim.type == "container":
         for t in trim:
             swap_trim_coordinates(t)
+        # The curves of the container are traversed one after the other: reversed curves in the reverse order
+        trim._elements.reverse()
         trim.reset()
     elif trim.type == "freeform":
         trim.evaluate(points=[[pt[1], pt[0]] for pt in reversed(trim.evalpts)])
